@@ -107,6 +107,35 @@ def gen_cases(ctx):
         stages = ",".join(rng.choice(["p", "a%d" % rng.range(1, 9), "f%d" % rng.range(1, 4)]) for _ in range(nst)) or "-"
         n = rng.choice([0, 1, per, per * blocks, per * blocks + 1, rng.range(0, 400)])
         cases.append("CHAIN %d %d %s %d %d" % (blocks, per, stages, n, rng.below(1 << 30) + 1))
+    # record-level consumers (util::stream::Stream) fed by stages that empty whole blocks: a dropped value range aligned to
+    # 0, 1, 2, 3.. whole blocks at the start / in the middle / at the end of the stream, everything dropped, exactly full
+    # last block (Stream::Poison leaves an empty block), Stream stages behind and in front of the dropping stage
+    for _ in range(ctx.pick(60, 900)):
+        blocks = rng.choice([1, 2, 2, 3, 4, rng.range(1, 6)])
+        per = rng.choice([1, 2, 4, 8, rng.range(1, 12)])
+        nblk = rng.choice([0, 1, 2, 3, 6, 12, rng.range(0, 30)])
+        n = max(0, nblk * per + rng.choice([0, 0, 0, 1, -1, rng.range(0, per - 1)]))
+        st = []
+        for _ in range(rng.choice([1, 1, 2, 3])):
+            kind = rng.choice(["d", "d", "d", "f1", "s", "a", "p", "f"])
+            if kind == "d":
+                first = rng.choice([0, 0, 1, rng.range(0, max(0, nblk))])           # first emptied block
+                cnt = rng.choice([0, 1, 2, 2, 3, rng.range(0, 6), nblk + 1])        # how many whole blocks are emptied
+                lo = first * per + 1 + rng.choice([0, 0, 0, -1, 1, rng.range(0, per)])
+                hi = (first + cnt) * per + 1 + rng.choice([0, 0, 0, -1, 1])
+                lo = max(0, lo)
+                st.append("d%d-%d" % (lo, max(lo, hi)))
+            elif kind == "s":
+                st.append("s%d" % rng.range(1, 9))
+            elif kind == "a":
+                st.append("a%d" % rng.range(1, 9))
+            elif kind == "f":
+                st.append("f%d" % rng.range(2, 4))
+            else:
+                st.append(kind)
+        if rng.chance(1, 2):
+            st.append("s%d" % rng.range(0, 5))
+        cases.append("%s %d %d %s %d %d" % (rng.choice(["CHAINS", "CHAINS", "CHAIN"]), blocks, per, ",".join(st), n, rng.below(1 << 30) + 1))
     for _ in range(ctx.pick(25, 300)):
         cases.append("POOL %d %d %d %d" % (rng.range(1, 6), rng.range(1, 5), rng.choice([0, 1, 2, rng.range(0, 300)]), rng.below(1 << 30) + 1))
     return cases
@@ -202,18 +231,25 @@ def oracle_chain(case, out):
     seq = list(range(1, n + 1))
     if stages != "-":
         for s in stages.split(","):
-            if s[0] == "a":
+            if s[0] in "as":        # 's' = the same function applied record by record through util::stream::Stream
                 seq = [(v + int(s[1:])) & 0xffffffff for v in seq]
             elif s[0] == "f":
                 seq = [v for v in seq if v % int(s[1:])]
+            elif s[0] == "d":
+                lo, hi = (int(x) for x in s[1:].split("-"))
+                seq = [v for v in seq if v < lo or v >= hi]
     h = 1469598103934665603
     for v in seq:
         h = ((h ^ v) * 1099511628211) & 0xFFFFFFFFFFFFFFFF
-    d = dict(x.split("=") for x in out.split()[1:])
+    d = dict(x.split("=") for x in out.split()[1:] if "=" in x)
+    if "count" not in d:
+        return "unparsable result: " + out[:200]
     if int(d["count"]) != len(seq):
         return "chain delivered %s entries, the stage functions applied in order give %d" % (d["count"], len(seq))
     if int(d["hash"], 16) != h:
         return "chain delivered the right number of entries but not the stage functions applied in production order (head %s)" % d["head"]
+    if "count" not in d:
+        return "unparsable result: " + out[:200]
     if int(d["distinct_blocks"]) > blocks:
         return "sink saw %s distinct blocks, the chain owns %d" % (d["distinct_blocks"], blocks)
     return None
@@ -253,10 +289,10 @@ def check(ctx, exe, cases, with_model=True):
         f = c.split()
         kind = f[0] + (":" + f[4].split(":")[0] if f[0] == "PCQ" else "")
         kinds[kind] = kinds.get(kind, 0) + 1
-        if f[0] == "CHAIN":
+        if f[0] in ("CHAIN", "CHAINS"):
             m = oracle_chain(c, o)
             if m:
-                spec_fail.append(("chain", c, o, m))
+                spec_fail.append(("chain" if f[0] == "CHAIN" and "s" not in "".join(x[0] for x in f[3].split(",")) else "chain:stream", c, o, m))
         elif f[0] == "POOL":
             m = oracle_pool(c, o)
             if m:
@@ -310,7 +346,7 @@ def check(ctx, exe, cases, with_model=True):
         except vlib.ModelBroken as e:
             model_broken = str(e)
     # chains and pools: the extracted atomic-FIFO models under their own seed-driven schedules must deliver the same result
-    cp = [(c, o) for c, o in zip(cases, iout) if c.split()[0] in ("CHAIN", "POOL") and o.startswith("ok ")]
+    cp = [(c, o) for c, o in zip(cases, iout) if c.split()[0] in ("CHAIN", "CHAINS", "POOL") and o.startswith("ok ")]
     if with_model and cp and model_broken is None:
         try:
             model = vlib.ocaml_model("C17")
@@ -355,7 +391,7 @@ def run(ctx):
     ctx.coverage["generated_files"] = gen_files
     ctx.coverage["input_distribution"] = ("P,C in 1..4, capacity 1..4, 0..5 items per producer (0..40 free-running); schedules: exhaustive DFS with preemption "
                                           "bound %d on 7 (quick) / 12 (thorough) small configurations, uniform random walk, PCT with 0..4 priority change points, "
-                                          "explicit random tid lists incl. unbalanced plans; chains 1..5 blocks x 1..15 entries x 0..4 stages; pools 1..5 workers") % ctx.pick(2, 3)
+                                          "explicit random tid lists incl. unbalanced plans; chains 1..5 blocks x 1..15 entries x 0..4 stages (Link-based and Stream-based sources/stages/sinks, value ranges dropped so that 0..6 whole adjacent blocks become empty); pools 1..5 workers") % ctx.pick(2, 3)
     for c, o in list(zip(cases, stats["iout"]))[:2] + [(c, o) for c, o in zip(cases, stats["iout"]) if c.startswith("CHAIN")][:1]:
         ctx.sample({"case": c[:300], "impl": o[:300]})
     ctx.assumptions += ["boost::interprocess_semaphore / boost::mutex implement counting-semaphore / mutex semantics (modelled, not verified)",
